@@ -197,6 +197,18 @@ def match_known(check_id: str, violation: Violation, case: dict, known: list[dic
     return None
 
 
+def raise_preferring_unknown(check_id: str, case: dict, violations: list[Violation]) -> None:
+    """A case that explores several injection points may hit a listed known finding at one point and something new
+    at another: report the new one first so a listed finding never masks a different violation."""
+    if not violations:
+        return
+    known = load_known_findings().get("known", [])
+    for v in violations:
+        if match_known(check_id, v, case, known) is None:
+            raise v
+    raise violations[0]
+
+
 # ----------------------------------------------------------------------------------------------
 # evidence accumulator
 
